@@ -1,3 +1,4 @@
+pub mod conc;
 pub mod corrupt;
 pub mod crash;
 pub mod fault;
@@ -16,6 +17,7 @@ pub fn dispatch(cmd: &str, args: &Args) -> i32 {
         "crashrun" => crash::crashrun(args),
         "crashcheck" => crash::crashcheck(args),
         "faultrun" => fault::faultrun(args),
+        "conc" => conc::cmd(args),
         _ => {
             eprintln!("unknown command {cmd:?}; commands: model, table, replay");
             2
@@ -27,6 +29,7 @@ pub fn replay_other(engine: &str, j: &J, scratch: &Path) -> i32 {
     match engine {
         "table" => table::replay(j, scratch),
         "corrupt" => corrupt::replay(j, scratch),
+        "conc" => conc::replay(j, scratch),
         _ => {
             eprintln!("replay: unknown engine {engine:?}");
             2
